@@ -383,6 +383,7 @@ func NftStep(m *PktModel, w *world.World, ev *StepEvent) []explore.Finding {
 			g.Extra[nftKey(chain, created[0].ci)] = flying
 			if created[0].to != data.Sender {
 				add("C06", "refund-to-someone-else", desc())
+				add("C04", "refund-to-someone-else", desc())
 			}
 		case len(moved) == 1 && len(created)+len(removed) == 0 && moved[0].from == NftModAddr:
 			if have := g.Extra[nftKey(chain, moved[0].ci)]; have != flying {
@@ -390,6 +391,7 @@ func NftStep(m *PktModel, w *world.World, ev *StepEvent) []explore.Finding {
 			}
 			if moved[0].to != data.Sender {
 				add("C06", "refund-to-someone-else", desc())
+				add("C04", "refund-to-someone-else", desc())
 			}
 		default:
 			add("C06", "refund-changed-unexpected-tokens", desc())
